@@ -1838,7 +1838,7 @@ class Module(ABC):
                 )
 
             # only delete cols if no other comps in the module have the same channel
-            if np.all(~self.base.nodes[name]):
+            if not self.base.nodes[name].astype(bool).any():
                 self.base.channels.pop(all_channel_names.index(name))
                 if channel.current_name not in [c.current_name for c in other_channels]:
                     self.base.membrane_current_names.remove(channel.current_name)
